@@ -1,4 +1,5 @@
 import DateutilVerif.Properties.C08
+import DateutilVerif.Properties.TzGen   -- translator tie (wt-iso): obligations about the re-translated lookup functions
 #print axioms C08.rule_instant
 #print axioms C08.transitions_eq_posix_partial
 #print axioms C08.no_dst_part_is_fixed
@@ -13,3 +14,12 @@ import DateutilVerif.Properties.C08
 #print axioms C08.tzstr_posix_partial
 #print axioms C08.tzstr_posix_midyear_partial
 #print axioms C08.tzrange_eq_tzstr
+-- translator tie (wt-iso): Gen.* (Generated/TzKernels.lean) = model, and `_gen` twins
+#print axioms C08.gen_eq_model_naive_isdst
+#print axioms C08.gen_eq_model_isdst
+#print axioms C08.gen_eq_model_is_ambiguous
+#print axioms C08.gen_eq_model_utcoffset
+#print axioms C08.gen_eq_model_dst
+#print axioms C08.gen_eq_model_tzname
+#print axioms C08.gen_eq_model_fromutc
+#print axioms C08.gen_eq_model_dst_base_offset
